@@ -16,11 +16,14 @@ Operation alphabet (JSON-able lists; all paths absolute, "/" = root):
   ["del", path]                            del container[path]
   ["copy", src, dst, opts]                 container.copy(src, dst, ...); opts: {"without_meta": bool,
                                            "into": bool (dst is an existing group, passed as MetadorGroup object),
-                                           "name": str (only with into: name=... kwarg)}
+                                           "name": str (only with into: name=... kwarg),
+                                           "srcobj": bool (source passed as MetadorNode object instead of a path)}
   ["move", src, dst]                       container.move(src, dst)
   ["attach", path, schema, ver|None, idx, opts]
                                            node.meta[key] = instance #idx of FAMILY[(schema, ver or default)];
-                                           opts: {"as": "obj"|"dict", "key": "name"|"tuple"|"cls",
+                                           opts: {"as": "obj"|"dict"|"unserialisable" (instance that parses but whose
+                                           bytes() raises; exists only on trees with the C12 encoder defect),
+                                           "key": "name"|"tuple"|"cls"|"ref",
                                            "env": [ver] (attach performed in an environment where only these
                                            versions of `schema` are installed -- simulates an older release)}
   ["detach", path, schema]                 del node.meta[schema]
@@ -1371,6 +1374,8 @@ def change_ops(model: Model, kind: str, tier: str, schemas_=None, allow_self_cop
             ops.append(["move", src, dst])
         if nodes.get("/g") == "g" and not _under("/g", src) and _parent(src) != "/g" and f"/g/{src.rsplit('/', 1)[1]}" not in nodes:
             ops.append(["copy", src, "/g", {"into": True}])
+        if "/k" not in nodes and any(_under(p, src) for p in model.meta):
+            ops.append(["copy", src, "/", {"into": True, "name": "k"}])  # destination given as the ROOT group object
     if kind == "ih5":
         ops.append(["commit"])
     return ops
@@ -1443,6 +1448,10 @@ def alphabet_tree(kind: str, tier: str, allow_self_copy=True):
                 ops.append(["detach", p, sn])
         if "/g" in nodes and "/d" in nodes and "/g/d" not in nodes:
             ops.append(["copy", "/d", "/g", {"into": True}])
+        for src in ("/g", "/d"):
+            if src in nodes and "/k" not in nodes:
+                ops.append(["copy", src, "/", {"into": True, "name": "k"}])  # destination given as the ROOT group object
+                break
         ops += _rotate(probe_ops(model, kind, tier), model, 4)
         if kind == "ih5":
             ops.append(["commit"])
@@ -1520,6 +1529,9 @@ def random_op(r, model: Model, kind: str, allow_self_copy=True) -> list:
 # =====================================================================================
 # exploration engine shared by C06 / C07 / C20
 # =====================================================================================
+
+
+TREE_DIFF: Dict[str, Any] = {"n": 0, "kinds": {}, "examples": []}
 
 
 class Step:
@@ -1648,13 +1660,19 @@ class Explorer:
         except Exception as e:  # noqa  (e.g. container left closed by a failed reopen)
             S = empty_scan()
             S["error"] = f"{type(e).__name__}: {str(e)[:200]}"
+        if op[0] == "copy" and not S.get("error"):
+            # whatever a copy (successful or failed with an effect) made appear is "created by the copy"
+            created = set(created) | (set(S["nodes"]) - set(model.nodes))
         if not S.get("error") and S["nodes"] != new_model.nodes:
             # the shape of the user tree is judged by C08/C09, not here: adopt what is observed (e.g. an operation that
             # raised after having had an effect) so that the model of what is attached WHERE stays meaningful
             if new_model is model:
                 new_model = model.clone()
-            if len(self.rec.notes) < 40 and not any(n.startswith("tree differs") and json.dumps(op) in n for n in self.rec.notes):
-                self.rec.notes.append(f"tree differs from the reference prediction after {json.dumps(op)} -> {status} {exc}: observed nodes adopted (not judged here)")
+            TREE_DIFF["n"] += 1
+            k = f"{op[0]} -> {status} {exc}"
+            TREE_DIFF["kinds"][k] = TREE_DIFF["kinds"].get(k, 0) + 1
+            if len(TREE_DIFF["examples"]) < 2:
+                TREE_DIFF["examples"].append(f"{self.kind}: {json.dumps(hist)} -> {status} {exc}: {msg[:100]}")
             new_model.nodes = dict(S["nodes"])
         st = Step(h=h, op=op, status=status, exc=exc, msg=msg, pred=pred, scan=S, model_before=model, model=new_model,
                   history=hist, kind=self.kind, created_by_copy=created, phase=phase)  # fmt: skip
@@ -1829,6 +1847,25 @@ def sweep_histories(tier: str, kind: str = "h5", seed: int = 0) -> List[list]:
     quick tier on IH5 (slow driver): short form, one instance per schema, a rotating third of the schemas (by seed)."""
     res: List[list] = []
     short = tier == "quick" and kind == "ih5"
+    # inheritance x versions scenarios
+    res.append([["mkds", "/d", 1], ["attach", "/d", "vt.bb", None, 0], ["attach", "/", "vt.cc", None, 0], ["attach", "/d", "vt.aa", None, 0],
+                ["mkgrp", "/g"], ["attach", "/g", "vt.l3", None, 0], ["attach", "/g", "vt.l2", None, 0], ["attach", "/", "vt.l1", None, 1],
+                ["reopen"], ["detach", "/d", "vt.bb"], ["detach", "/g", "vt.l2"], ["reopen"], ["detach", "/d", "vt.aa"], ["del", "/g"]])  # fmt: skip
+    if not short:
+        res.append([["mkgrp", "/g"], ["mkds", "/g/e", 1], ["attach", "/g/e", "core.imagefile", None, 0], ["attach", "/g", "core.bib", None, 0],
+                    ["attach", "/", "core.dir", None, 1], ["attach", "/g/e", "vt.auxkid", None, 0], ["copy", "/g", "/h", {}], ["commit"],
+                    ["del", "/g"], ["reopen"], ["move", "/h/e", "/e"], ["detach", "/e", "core.imagefile"]])  # fmt: skip
+    # delete and re-create a group that carries metadata across IH5 patch boundaries
+    res.append([["mkgrp", "/g"], ["mkds", "/g/e", 2], ["attach", "/g/e", "vt.bb", None, 0], ["attach", "/g", "vt.cc", None, 0], ["commit"],
+                ["del", "/g"], ["mkgrp", "/g"], ["commit"], ["mkds", "/g/w", 4], ["attach", "/g", "vt.bb", None, 1], ["reopen"],
+                ["copy", "/g", "/h", {}], ["detach", "/g", "vt.bb"], ["copy", "/h", "/", {"into": True, "name": "k"}],
+                ["copy", "/g", "/s", {"srcobj": True}], ["del", "/h"]])  # fmt: skip
+    if MULTIVER_OK:
+        res.append([["mkds", "/d", 1], ["mkgrp", "/g"], ["mkds", "/g/e", 1],
+                    ["attach", "/d", "vt.ver", [0, 1, 0], 0, {"env": [[0, 1, 0]]}],
+                    ["attach", "/g", "vt.ver", [0, 2, 0], 1], ["attach", "/g/e", "vt.ver", [1, 0, 0], 0],
+                    ["attach", "/", "vt.verkid", None, 0], ["reopen"], ["attach", "/d", "vt.verkid", None, 1],
+                    ["copy", "/g", "/h", {}], ["detach", "/g", "vt.ver"], ["commit"], ["detach", "/d", "vt.ver"], ["reopen"]])  # fmt: skip
     for si, ((n, v), info) in enumerate(sorted(FAMILY.items())):
         if not info.instances:
             continue
@@ -1855,24 +1892,6 @@ def sweep_histories(tier: str, kind: str = "h5", seed: int = 0) -> List[list]:
             res.append(hist)
             if tier == "quick" and info.origin == "installed":
                 break
-    # inheritance x versions scenarios
-    res.append([["mkds", "/d", 1], ["attach", "/d", "vt.bb", None, 0], ["attach", "/", "vt.cc", None, 0], ["attach", "/d", "vt.aa", None, 0],
-                ["mkgrp", "/g"], ["attach", "/g", "vt.l3", None, 0], ["attach", "/g", "vt.l2", None, 0], ["attach", "/", "vt.l1", None, 1],
-                ["reopen"], ["detach", "/d", "vt.bb"], ["detach", "/g", "vt.l2"], ["reopen"], ["detach", "/d", "vt.aa"], ["del", "/g"]])  # fmt: skip
-    if not short:
-        res.append([["mkgrp", "/g"], ["mkds", "/g/e", 1], ["attach", "/g/e", "core.imagefile", None, 0], ["attach", "/g", "core.bib", None, 0],
-                    ["attach", "/", "core.dir", None, 1], ["attach", "/g/e", "vt.auxkid", None, 0], ["copy", "/g", "/h", {}], ["commit"],
-                    ["del", "/g"], ["reopen"], ["move", "/h/e", "/e"], ["detach", "/e", "core.imagefile"]])  # fmt: skip
-    # delete and re-create a group that carries metadata across IH5 patch boundaries
-    res.append([["mkgrp", "/g"], ["mkds", "/g/e", 2], ["attach", "/g/e", "vt.bb", None, 0], ["attach", "/g", "vt.cc", None, 0], ["commit"],
-                ["del", "/g"], ["mkgrp", "/g"], ["commit"], ["mkds", "/g/w", 4], ["attach", "/g", "vt.bb", None, 1], ["reopen"],
-                ["copy", "/g", "/h", {"srcobj": True}], ["detach", "/g", "vt.bb"]])  # fmt: skip
-    if MULTIVER_OK:
-        res.append([["mkds", "/d", 1], ["mkgrp", "/g"], ["mkds", "/g/e", 1],
-                    ["attach", "/d", "vt.ver", [0, 1, 0], 0, {"env": [[0, 1, 0]]}],
-                    ["attach", "/g", "vt.ver", [0, 2, 0], 1], ["attach", "/g/e", "vt.ver", [1, 0, 0], 0],
-                    ["attach", "/", "vt.verkid", None, 0], ["reopen"], ["attach", "/d", "vt.verkid", None, 1],
-                    ["copy", "/g", "/h", {}], ["detach", "/g", "vt.ver"], ["commit"], ["detach", "/d", "vt.ver"], ["reopen"]])  # fmt: skip
     return res
 
 
@@ -1925,16 +1944,29 @@ class BaseChecker:
         self.rec.check(True, "", "")
 
     def report(self, st: Step, sig: str, what: str, fns=()):
+        """Record a violation; its history is minimised later (`minimise_all`), outside the exploration budgets."""
         if sig in self.rec._sigs or self.rec.full:
             self.rec.check(False, sig, what)
             return
-        hist = st.history
-        if self.minimise:
+        self.rec.check(False, sig, what, case={"kind": st.kind, "history": list(st.history), "sig": sig, "minimised": False}, fns=list(fns))
+
+    def minimise_all(self, budget_s: float):
+        """ddmin over the recorded histories (shortest first), as far as the budget allows."""
+        if not self.minimise:
+            return
+        t_end = time.time() + budget_s
+        todo = sorted(self.rec.violations, key=lambda v: len(v["replay"]["case"]["history"]))
+        for i, v in enumerate(todo):
+            case = v["replay"]["case"]
+            left = t_end - time.time()
+            if left <= 0.2:
+                break
             try:
-                hist = minimise_history(type(self), st.kind, hist, sig)
+                hist = minimise_history(type(self), case["kind"], case["history"], case["sig"], budget_s=left / max(1, len(todo) - i))
+                if hist is not None:
+                    case["history"], case["minimised"] = hist, True
             except Exception as e:  # noqa
-                self.rec.notes.append(f"minimisation failed for {sig}: {type(e).__name__}: {e}")
-        self.rec.check(False, sig, what, case={"kind": st.kind, "history": hist, "sig": sig}, fns=list(fns))
+                self.rec.notes.append(f"minimisation failed for {case['sig']}: {type(e).__name__}: {e}")
 
 
 def replay_history(checker_cls, kind: str, history, workdir: Path):
@@ -1950,10 +1982,10 @@ def replay_history(checker_cls, kind: str, history, workdir: Path):
 
 
 def minimise_history(checker_cls, kind, history, sig, budget_s=2.0):
-    """Greedy removal of operations while the same signature is still reported."""
+    """ddmin: remove chunks of operations while the same signature is still reported. None if it does not reproduce."""
     from .base import tmpdir
 
-    t0 = time.time()
+    t_end = time.time() + budget_s
     cur = list(history)
     with tmpdir() as d:
         n = [0]
@@ -1962,17 +1994,32 @@ def minimise_history(checker_cls, kind, history, sig, budget_s=2.0):
             n[0] += 1
             wd = d / f"r{n[0]}"
             wd.mkdir()
-            return any(v["signature"] == sig for v in replay_history(checker_cls, kind, hist, wd))
+            try:
+                return any(v["signature"] == sig for v in replay_history(checker_cls, kind, hist, wd))
+            finally:
+                import shutil
+
+                shutil.rmtree(wd, ignore_errors=True)
 
         if not bad(cur):
-            return cur  # does not reproduce in isolation (keep the observed history)
-        i = 0
-        while i < len(cur) and time.time() - t0 < budget_s:
-            cand = cur[:i] + cur[i + 1:]
-            if bad(cand):
-                cur = cand
-            else:
-                i += 1
+            return None  # does not reproduce in isolation: keep the observed history
+        gran = 2
+        while len(cur) >= 2 and time.time() < t_end:
+            chunk = max(1, len(cur) // gran)
+            removed = False
+            for i in range(0, len(cur), chunk):
+                if time.time() >= t_end:
+                    break
+                cand = cur[:i] + cur[i + chunk:]
+                if cand and bad(cand):
+                    cur = cand
+                    gran = max(gran - 1, 2)
+                    removed = True
+                    break
+            if not removed:
+                if chunk == 1:
+                    break
+                gran = min(len(cur), gran * 2)
     return cur
 
 
@@ -1994,8 +2041,8 @@ def make_replay(checker_cls):
 
 
 PLAN = {
-    "quick": [("sweep", "h5", 5), ("sweep", "ih5", 6), ("toggle", "h5", 7), ("toggle", "ih5", 6), ("tree", "h5", 4), ("tree", "ih5", 4),
-              ("general", "h5", 8), ("general", "ih5", 5), ("walk", "both", 4)],
+    "quick": [("sweep", "h5", 7), ("sweep", "ih5", 8), ("toggle", "h5", 6), ("toggle", "ih5", 5), ("tree", "h5", 4), ("tree", "ih5", 4),
+              ("general", "h5", 7), ("general", "ih5", 4), ("walk", "both", 4)],
     "thorough": [("sweep", "h5", 25), ("sweep", "ih5", 70), ("toggle", "h5", 50), ("toggle", "ih5", 80), ("tree", "h5", 40), ("tree", "ih5", 60),
                  ("general", "h5", 80), ("general", "ih5", 60), ("walk", "both", 70)],
 }  # fmt: skip
@@ -2010,6 +2057,7 @@ def run_driver(checker_cls, tier: str, seed: int, rule: str, assumptions=(), tru
     install_families()
     for n in FAMILY_NOTES:
         rec.notes.append(n)
+    TREE_DIFF.update(n=0, kinds={}, examples=[])
     chk = checker_cls(rec)
     plan = plan or PLAN["quick" if tier == "quick" else "thorough"]
     total = float(sum(w for _, _, w in plan))
@@ -2072,8 +2120,20 @@ def run_driver(checker_cls, tier: str, seed: int, rule: str, assumptions=(), tru
                 )
         if extra_phase is not None:
             extra_phase(chk, rec, d, bounds)
+        if rec.violations:
+            chk.minimise_all(8.0 if tier == "quick" else 40.0)
     if chk.hangs:
         rec.notes.append(f"{chk.hangs} operations hit the {OP_TIMEOUT_S}s watchdog")
+    if getattr(chk, "skipped_tocinv", 0):
+        rec.notes.append(f"{chk.skipped_tocinv} steps not judged because the state violated TocInv (see C06)")
+    if getattr(chk, "followups", 0):
+        rec.notes.append(f"{chk.followups} operations on states that violated TocInv already before the operation added further damage (consequences, not reported separately)")
+    if TREE_DIFF["n"]:
+        rec.notes.append(
+            f"user tree differed from the reference-tree prediction after {TREE_DIFF['n']} operations ({TREE_DIFF['kinds']}); observed tree adopted, "
+            f"not judged by this property (C08/C09). Typical: MetadorGroup.copy of a dataset that carries no metadata raises AFTER the destination was created. "
+            f"Examples: {TREE_DIFF['examples']}"
+        )
     bound = "; ".join(bounds[k] for k in bounds)
     return rec.result(
         rule=rule, bound=bound, exhaustive=exhaustive, assumptions=assumptions,
